@@ -18,6 +18,11 @@ typedef float f32; typedef double f64;
 u8 nondet_u8(void); u16 nondet_u16(void); u32 nondet_u32(void); u64 nondet_u64(void);
 i8 nondet_i8(void); i16 nondet_i16(void); i32 nondet_i32(void); i64 nondet_i64(void);
 f32 nondet_f32(void); f64 nondet_f64(void);
+/* uninterpreted FP operations (same symbols as ll2c emits in uf mode) */
+float __CPROVER_uninterpreted_fadd_float(float, float); float __CPROVER_uninterpreted_fsub_float(float, float);
+float __CPROVER_uninterpreted_fmul_float(float, float); float __CPROVER_uninterpreted_fdiv_float(float, float);
+double __CPROVER_uninterpreted_fadd_double(double, double); double __CPROVER_uninterpreted_fsub_double(double, double);
+double __CPROVER_uninterpreted_fmul_double(double, double); double __CPROVER_uninterpreted_fdiv_double(double, double);
 #define IN(T, x) T x = nondet_##T()
 #define INA(T, x, n) T x[n]; for (int i_##x = 0; i_##x < (n); i_##x++) x[i_##x] = nondet_##T()
 #define ASSUME(c) __CPROVER_assume(c)
